@@ -2047,6 +2047,10 @@ func (cpu *CPU) op_mvn() {
 		cpu.RX++
 	}
 
+	if cpu.M == 1 {
+		// the 16-bit count lives in RAh:RAl while the accumulator is 8 bits wide
+		cpu.RA = uint16(cpu.RAh)<<8 | uint16(cpu.RAl)
+	}
 	cpu.RA--
 	cpu.RAl = uint8(cpu.RA & 0x00ff)
 	cpu.RAh = uint8(cpu.RA >> 8)
@@ -2071,6 +2075,10 @@ func (cpu *CPU) op_mvp() {
 		cpu.RX--
 	}
 
+	if cpu.M == 1 {
+		// the 16-bit count lives in RAh:RAl while the accumulator is 8 bits wide
+		cpu.RA = uint16(cpu.RAh)<<8 | uint16(cpu.RAl)
+	}
 	cpu.RA--
 	cpu.RAl = uint8(cpu.RA & 0x00ff)
 	cpu.RAh = uint8(cpu.RA >> 8)
